@@ -328,15 +328,19 @@ func main() {
 						if j%4 == 1 {
 							// two goroutines exit the SAME entry at the same instant: it releases its capacity exactly once
 							var both sync.WaitGroup
-							var go2 int32
+							var go2, ready int32
 							both.Add(1)
 							en := o.entry
 							go func() {
 								defer both.Done()
+								atomic.StoreInt32(&ready, 1)
 								for atomic.LoadInt32(&go2) == 0 {
 								}
 								en.Exit()
 							}()
+							for atomic.LoadInt32(&ready) == 0 { // the helper is running and spinning before either Exit starts
+								runtime.Gosched()
+							}
 							atomic.StoreInt32(&go2, 1)
 							en.Exit()
 							both.Wait()
